@@ -733,6 +733,8 @@ def get_excitations(
     Acre, Ades, Bcre, Bdes, coeff = {}, {}, {}, {}, {}
     d0 = dets[0]
     d0a, d0b = np.asarray(d0[0]), np.asarray(d0[1])
+    # position of each occupied reference orbital among the reference electrons
+    pos_a, pos_b = np.cumsum(d0a) - 1, np.cumsum(d0b) - 1
     for d in dets:
         dia, dib = np.asarray(d[0]), np.asarray(d[1])
         nex = (np.sum(abs(dia - d0a)) // 2, np.sum(abs(dib - d0b)) // 2)
@@ -771,7 +773,7 @@ def get_excitations(
         # singe alpha excitation
         if (i, 0) in Ades:
             Ades[(i, 0)] = np.asarray(Ades[(i, 0)]).reshape(-1, i) + num_core
-            Acre[(i, 0)] = np.asarray(Acre[(i, 0)]).reshape(-1, i) + num_core
+            Acre[(i, 0)] = pos_a[np.asarray(Acre[(i, 0)]).reshape(-1, i)] + num_core
             coeff[(i, 0)] = np.asarray(coeff[(i, 0)]).reshape(
                 -1,
             )
@@ -783,7 +785,7 @@ def get_excitations(
         # singe beta excitation
         if (0, i) in Bdes:
             Bdes[(0, i)] = np.asarray(Bdes[(0, i)]).reshape(-1, i) + num_core
-            Bcre[(0, i)] = np.asarray(Bcre[(0, i)]).reshape(-1, i) + num_core
+            Bcre[(0, i)] = pos_b[np.asarray(Bcre[(0, i)]).reshape(-1, i)] + num_core
             coeff[(0, i)] = np.asarray(coeff[(0, i)]).reshape(
                 -1,
             )
@@ -797,9 +799,9 @@ def get_excitations(
             for j in range(1, max_excitation + 1):
                 if (i, j) in Ades:
                     Ades[(i, j)] = np.asarray(Ades[(i, j)]).reshape(-1, i) + num_core
-                    Acre[(i, j)] = np.asarray(Acre[(i, j)]).reshape(-1, i) + num_core
+                    Acre[(i, j)] = pos_a[np.asarray(Acre[(i, j)]).reshape(-1, i)] + num_core
                     Bdes[(i, j)] = np.asarray(Bdes[(i, j)]).reshape(-1, j) + num_core
-                    Bcre[(i, j)] = np.asarray(Bcre[(i, j)]).reshape(-1, j) + num_core
+                    Bcre[(i, j)] = pos_b[np.asarray(Bcre[(i, j)]).reshape(-1, j)] + num_core
                     coeff[(i, j)] = np.asarray(coeff[(i, j)]).reshape(
                         -1,
                     )
